@@ -13,8 +13,30 @@ def guards(ctx, crate, tag=""):
     return n
 
 
+def base_cell_guard(ctx, crate):
+    """D: the depth-0 helper `neighbour(base_cell, direction)` has a value exactly for base_cell < 12,
+    for each of the 9 directions (the centre `C` included): all 256 x 9 cases, each folded."""
+    from sym import Engine, C, show
+    clause = "hash-guard"
+    fn = "neighbour"
+    b = ctx.anchor(crate, fn, clause)
+    if b is None: return
+    names = crate.variant_names("compass_point::MainWind")
+    bad = []; n = 0
+    for base in range(256):
+        for v, nm in enumerate(names):
+            e = Engine(crate); r = e.run(fn, [C('u8', base), ('agg', 'adt:compass_point::MainWind', v, ())])
+            n += 1
+            if (base < 12) != bool(r.returns): bad.append((base, nm, "returns %s" % show(r.ret)[:30] if r.returns else "panics"))
+    ctx.functions.add(fn)
+    ctx.report(clause, "neighbour(base_cell, direction):base_cell<12", not bad and n == 256 * len(names),
+               "%d cases (every u8 x %d directions): a value exactly for base_cell < 12" % (n, len(names)) if not bad else
+               "%d of %d cases: e.g. neighbour(%d, %s) %s — an out-of-range base cell is accepted" % ((len(bad), n) + bad[0]), at=b.span, sample={"cases": n})
+
+
 def run(ctx):
     crate = ctx.crate("rel")
+    base_cell_guard(ctx, crate)
     n = guards(ctx, crate)
     ctx.floor("guarded-entry-points", n, 3)
     try:
